@@ -3,6 +3,7 @@ import BM.Proofs.Escape
 import BM.Proofs.RoundTrip
 import BM.Proofs.Bytes
 import BM.Props.C14
+import BM.Proofs.ProvC
 /-
   C06: text is preserved exactly and always emitted escaped.  Proved (event level, all
   policies with AllowUnsafe off, all token sequences):
@@ -357,5 +358,76 @@ example :
     let p : Policy := { initialized := true, elsAndAttrs := [(b!"b", [])], setOfElementsAllowedWithoutAttrs := [b!"b"] }
     p.sanitizeCore b!"a &amp; b <i>&lt;c&gt;</i> \"q\" <b>'s'\r</b>" =
       b!"a &amp; b &lt;c&gt; &#34;q&#34; <b>&#39;s&#39;\n</b>" := by decide
+
+/-! ### comments allowed or not -/
+
+theorem quiet_step_toksC {p : Policy} (hp : PlainC p) (hs : p.addSpaces = false) {st : LoopState} {t : Token}
+    (hwf : TokWF t) (hq : Quiet st) {st' : LoopState} {ws : List Write} (h : p.step st t = some (st', ws)) :
+    ∃ toks : List Token, ws.map (·.data) = toks.map Token.render ∧ (∀ k ∈ toks, SegOKC k) ∧
+      textOf toks = textOf [t] := by
+  by_cases htt : t.tt = .text
+  · have := text_written_once p st t htt hq.1 hq.2
+    rw [this] at h
+    simp only [Option.some.injEq, Prod.mk.injEq] at h
+    obtain ⟨_, rfl⟩ := h
+    refine ⟨[⟨.text, t.data, []⟩], by simp [Token.render], by intro k hk; simp at hk; subst hk; exact .inl (by simp [SegOK]), ?_⟩
+    rw [textOf_cons, textOf_cons, htt]
+  · obtain ⟨toks, hr, hf⟩ := emit_toksC hp hwf (step_emit p st t st' ws h)
+    refine ⟨toks, hr, fun k hk => (hf k hk).1, ?_⟩
+    have hnt : ∀ k ∈ toks, (k.tt == TT.text) = false := by
+      intro k hk
+      obtain ⟨_, hor⟩ := hf k hk
+      rcases hor with ⟨_, (⟨_, (⟨_, hsp⟩ | ⟨ht, _⟩)⟩ | ⟨hkt, _⟩)⟩ | ⟨hkc, _⟩
+      · rw [hs] at hsp; cases hsp
+      · exact absurd ht htt
+      · rw [hkt]; revert htt; cases t.tt <;> intro htt <;> first | rfl | exact absurd rfl htt
+      · rw [hkc]; rfl
+    have h1 : textOf toks = [] := by
+      unfold textOf
+      rw [List.filter_eq_nil_iff.mpr (fun k hk => by simp [hnt k hk])]
+      rfl
+    have h2 : textOf [t] = [] := by
+      have : (t.tt == TT.text) = false := by
+        revert htt; cases t.tt <;> intro htt <;> first | rfl | exact absurd rfl htt
+      rw [textOf_cons, this]; rfl
+    rw [h1, h2]
+
+theorem run_textC {p : Policy} (hp : PlainC p) (hs : p.addSpaces = false) (ts : List Token)
+    (hwf : ∀ t ∈ ts, TokWF t) (hc : ∀ t ∈ ts, CalmTok p t) :
+    ∀ st, Quiet st → StackInv st → ∃ toks : List Token,
+      (p.run st ts).1.map (·.data) = toks.map Token.render ∧ (∀ k ∈ toks, SegOKC k) ∧
+      textOf toks = textOf ts := by
+  induction ts with
+  | nil => intro st _ _; exact ⟨[], by simp [Policy.run], by simp, rfl⟩
+  | cons t ts ih =>
+    intro st hq hi
+    obtain ⟨st', ws, hstep, hi'⟩ := step_safe p st t (tokWF_nameOK (hwf t (by simp))) hi
+    have hq' := step_quiet p st t st' ws hstep hq (hc t (by simp))
+    obtain ⟨k1, hr1, hs1, ht1⟩ := quiet_step_toksC hp hs (hwf t (by simp)) hq hstep
+    obtain ⟨k2, hr2, hs2, ht2⟩ := ih (fun x hx => hwf x (by simp [hx])) (fun x hx => hc x (by simp [hx])) st' hq' hi'
+    refine ⟨k1 ++ k2, ?_, ?_, ?_⟩
+    · unfold Policy.run; simp only [hstep]; simp [hr1, hr2]
+    · intro k hk; simp only [List.mem_append] at hk
+      rcases hk with h | h
+      · exact hs1 k h
+      · exact hs2 k h
+    · rw [textOf_append, ht1, ht2]
+      have : t :: ts = [t] ++ ts := rfl
+      rw [this, textOf_append]
+
+/-- **C06 (byte level), comments allowed or not**: for every policy without AllowUnsafe, without a
+    raw-text element on its allowlist and without AddSpaceWhenStrippingTag — whether or not it
+    allows comments — and an input whose tags are neither script/style nor in the skip-content
+    set, the text an HTML tokenizer reads from the output equals the text it reads from the input -/
+theorem C06_bytesC (p : Policy) (hp : PlainC p.ensureInit) (hs : p.ensureInit.addSpaces = false) (input : Bytes)
+    (hc : ∀ t ∈ tokenize input, CalmTok p.ensureInit t) :
+    textOf (tokenize (p.sanitizeCore input)) = textOf (tokenize input) := by
+  obtain ⟨toks, hr, hseg, htext⟩ :=
+    run_textC hp hs (tokenize input) (tokenize_wf input) hc {} ⟨rfl, rfl⟩ stackInv_init
+  have hb : p.sanitizeCore input = renderAll toks := by
+    unfold Policy.sanitizeCore Policy.sanitizeTokens
+    rw [hr, flatten_map_render]
+  rw [hb, tokenize_renderAllC toks hseg, textOf_coalesce, textOf_map_reread]
+  simpa using htext
 
 end BM.Props
